@@ -3,6 +3,7 @@
 
 use crate::plugins::run_plugin_on;
 use crate::tok;
+use crate::with_mt;
 use crate::util::*;
 use dataflow_rs::engine::message::Message;
 use serde_json::{Value, json};
@@ -99,6 +100,31 @@ fn leaf_mut<'a>(v: &'a mut Value, path: &[String]) -> Option<&'a mut Value> {
     Some(cur)
 }
 
+/// the four stages through the typed API; same events as the plugin route
+fn typed_route<T: swift_mt_message::traits::SwiftMessageBody + serde::de::DeserializeOwned>(mt: &str, name: &str, cfg: &swift_mt_message::scenario_config::ScenarioConfig) -> (Vec<Value>, Value, String) {
+    let mut evs: Vec<Value> = Vec::new();
+    let m: swift_mt_message::SwiftMessage<T> = match swift_mt_message::sample::generate_sample_with_config::<T>(mt, Some(name), cfg) {
+        Ok(m) => { evs.push(json!({"e": "generate", "ok": true})); m }
+        Err(e) => { evs.push(json!({"e": "generate", "ok": false, "err": e.to_string().chars().take(200).collect::<String>()})); return (evs, Value::Null, String::new()); }
+    };
+    let generated = serde_json::to_value(&m).unwrap_or(Value::Null);
+    let text = m.to_mt_message();
+    let b4 = text.find("{4:").and_then(|s| text[s + 3..].find("\n-}").map(|e| text[s + 3..s + 3 + e + 1].to_string())).unwrap_or_default();
+    let toks: Vec<String> = tok::tokenize(&b4).tokens.iter().map(|t| t.tag.clone()).collect();
+    evs.push(json!({"e": "publish", "ok": true, "toks": toks}));
+    let vr = m.validate();
+    evs.push(json!({"e": "validate", "ok": true, "valid": vr.is_valid, "n": vr.errors.len(), "first": vr.errors.first().map(|e| e.to_string().chars().take(40).collect::<String>()).unwrap_or_default()}));
+    match swift_mt_message::parser::SwiftParser::parse::<T>(&text) {
+        Ok(m2) => {
+            let parsed = serde_json::to_value(&m2).unwrap_or(Value::Null);
+            let d = diff(&generated, &parsed, "$");
+            evs.push(json!({"e": "parse", "ok": true, "equal": d.is_none(), "where": d.unwrap_or_default().chars().take(90).collect::<String>()}));
+        }
+        Err(e) => evs.push(json!({"e": "parse", "ok": false, "equal": false, "where": e.to_string().chars().take(90).collect::<String>()})),
+    }
+    (evs, generated, text)
+}
+
 pub fn run(args: &[String]) -> i32 {
     let root_default = format!("{}/test_scenarios", crate::util::repo_root());
     let root = arg(args, "--scenarios").unwrap_or(&root_default);
@@ -121,6 +147,8 @@ pub fn run(args: &[String]) -> i32 {
     let mut id = 0usize;
     let mut runs = 0u64;
     let mut boundary_runs = 0u64;
+    let mut typed_runs = 0u64;
+    let typed_draws: usize = arg(args, "--typed-draws").and_then(|s| s.parse().ok()).unwrap_or(2);
     let mut samples: Vec<Value> = Vec::new();
     let mut index: Vec<Value> = Vec::new();
     for (mt, path) in &files {
@@ -209,8 +237,36 @@ pub fn run(args: &[String]) -> i32 {
             evs.push(json!({"e": "end"}));
             for e in evs { let _ = writeln!(w, "{}", e); }
         }
+        // ---- the typed sample API on the same scenario file: generate_sample_with_config::<T>(type, name) is the
+        //      second way from a scenario to a message (its own copy of "find the file, draw, read the JSON"); the
+        //      same four stages, through the typed functions: sample -> to_mt_message -> validate -> parse
+        for _ in 0..typed_draws {
+            id += 1;
+            runs += 1;
+            typed_runs += 1;
+            let code = mt.trim_start_matches("MT").to_string();
+            let name = path.file_stem().unwrap().to_string_lossy().to_string();
+            let label = format!("{}@typed-api", scenario);
+            let mut evs: Vec<Value> = vec![json!({"e": "begin", "id": id, "scenario": label, "mt": code})];
+            let cfg = swift_mt_message::scenario_config::ScenarioConfig::with_paths(vec![std::path::PathBuf::from(root)]);
+            let r = guarded(|| with_mt!(code.as_str(), T => typed_route::<T>(mt, &name, &cfg), else (vec![json!({"e": "generate", "ok": false})], Value::Null, String::new())));
+            match r {
+                Ok((mut e2, generated, text)) => {
+                    let failed = e2.iter().any(|e| e["ok"] == false || e["equal"] == false || e["valid"] == false);
+                    evs.append(&mut e2);
+                    if failed {
+                        let art = format!("{}/{}.json", artefacts, id);
+                        let _ = std::fs::write(&art, json!({"scenario": label, "generated": generated, "published": text, "events": evs}).to_string());
+                        index.push(json!({"id": id, "scenario": label, "artefact": art}));
+                    }
+                }
+                Err(p) => evs.push(json!({"e": "generate", "ok": false, "panic": p})),
+            }
+            evs.push(json!({"e": "end"}));
+            for e in evs { let _ = writeln!(w, "{}", e); }
+        }
     }
     let _ = w.flush();
-    std::fs::write(out_path, json!({"scenario_files": files.len(), "runs": runs, "draws": draws, "boundary_draws": boundary_runs, "samples": samples, "artefacts": index}).to_string()).expect("write");
+    std::fs::write(out_path, json!({"scenario_files": files.len(), "runs": runs, "draws": draws, "boundary_draws": boundary_runs, "typed_api_runs": typed_runs, "samples": samples, "artefacts": index}).to_string()).expect("write");
     0
 }
